@@ -13,7 +13,7 @@ ID = "C04"
 TECHNIQUE = "property-based testing (Hypothesis) with validity predicates per hour and an accept/raise oracle predicted by a reference model of the storage balance and server sizing"
 LEVEL_TEXT = ("generated systems (3 server types, fixed counts below/at/above the need, base consumption below/above "
               "capacity, storage durations shorter and longer than the period, replication, writing and deleting jobs on "
-              "different windows); inequalities checked at every hour and rejection checked to happen iff the reference "
+              "different windows), freshly built and reached through edit histories; inequalities checked at every hour and rejection checked to happen iff the reference "
               "model predicts it")
 LEVEL_NOTE = "trusts the job-level series (C03 checks them) and the harness' storage balance arithmetic"
 RULE = ("Hypothesis draws a system spec and a tweak (none | base RAM/compute above capacity | fixed instance count of a "
